@@ -21,7 +21,7 @@ import (
 )
 
 const rule = "inputs: (a) every string up to a length bound over the token alphabet, (b) random grammar derivations with random spacing, " +
-	"(c) byte-level mutations of accepted strings, (d) native fuzzing in the thorough tier. " +
+	"(b2) pairs of strings for reference-free relations (closure under concatenation and splitting, rendering distributes over concatenation), (c) byte-level mutations of accepted strings, (d) native fuzzing in the thorough tier. " +
 	"non-trivial = an accepted string, or a rejected string that one deletion turns into an accepted one (the boundary of the language); distinct by input text"
 
 var assumptions = []string{
@@ -398,6 +398,69 @@ func TestDerivations(t *testing.T) {
 	})
 }
 
+// ---- (b') metamorphic relations without the reference recogniser -----------------
+//
+// The grammar is Route = Segment+, so the language is closed under
+// concatenation and under splitting at a segment boundary, and rendering
+// distributes over concatenation. Only the real parser is consulted here.
+
+type PairCase struct {
+	A string `json:"a"`
+	B string `json:"b"`
+}
+
+func checkPair(c PairCase) evid.Outcome {
+	a, b := mustUnquote(c.A), mustUnquote(c.B)
+	ra, ea := parser.Parse(a)
+	rb, eb := parser.Parse(b)
+	rab, eab := parser.Parse(a + b)
+	out := evid.Outcome{Classes: []string{"concatenation"}}
+	if ea == nil && eb == nil {
+		out.NonTrivial = true
+		if eab != nil {
+			return fail(out, "closure", "%q and %q are routes but their concatenation is rejected: %v", a, b, eab)
+		}
+		if rab.String() != ra.String()+rb.String() {
+			return fail(out, "render-concat", "String(%q+%q) = %q, String(a)+String(b) = %q", a, b, rab.String(), ra.String()+rb.String())
+		}
+		if len(rab.Segments) != len(ra.Segments)+len(rb.Segments) {
+			return fail(out, "segments-concat", "%q+%q has %d segments, the parts have %d and %d", a, b, len(rab.Segments), len(ra.Segments), len(rb.Segments))
+		}
+	}
+	if eab == nil && ea == nil && eb != nil && strings.HasPrefix(b, "/") {
+		// a is a route and a+b is one: b starts at a segment boundary, so it is a route too
+		return fail(out, "split", "%q and %q are routes but %q is rejected: %v", a, a+b, b, eb)
+	}
+	return out
+}
+
+func mustUnquote(q string) string {
+	s, err := strconv.Unquote(q)
+	if err != nil {
+		panic(err)
+	}
+	return s
+}
+
+func TestConcatenation(t *testing.T) {
+	evid.Rapid(t, "pair", 3000, 40000, func(t *rapid.T) {
+		draw := func(label string) string {
+			switch rapid.IntRange(0, 3).Draw(t, label) {
+			case 0:
+				return wildRoute(t).Source()
+			case 1:
+				return gen.Route(t, gen.RouteOpts{MaxSegs: 3, WildSpacing: true}).Source()
+			case 2:
+				return seeds[rapid.IntRange(0, len(seeds)-1).Draw(t, label+"seed")]
+			default:
+				return mutate(t, gen.Route(t, gen.RouteOpts{MaxSegs: 2}).Source())
+			}
+		}
+		c := PairCase{A: strconv.Quote(draw("a")), B: strconv.Quote(draw("b"))}
+		evid.Run(t, "pair", c, func() evid.Outcome { return checkPair(c) })
+	})
+}
+
 // ---- (c) mutations ---------------------------------------------------------
 
 var seeds = []string{
@@ -482,6 +545,13 @@ func TestReplay(t *testing.T) {
 				panic(err)
 			}
 			return checkWithNeighbours(c.str())
+		},
+		"pair": func(raw json.RawMessage) evid.Outcome {
+			var c PairCase
+			if err := json.Unmarshal(raw, &c); err != nil {
+				panic(err)
+			}
+			return checkPair(c)
 		},
 		"derivation": func(raw json.RawMessage) evid.Outcome {
 			var c DerivCase
